@@ -235,6 +235,11 @@ impl Core {
                     }
                 }
             }
+        } else if task.is_retracting() {
+            // A retracting task that has no new target yet waits in the ready queue
+            self.task_queues
+                .get_mut(task.resource_rq_id)
+                .remove(task_id, task.priority());
         }
         task.state
     }
